@@ -74,8 +74,37 @@ def snap(x, depth=0):
         return ("fn", getattr(x, "__qualname__", repr(type(x))))
     d = getattr(x, "__dict__", None)
     if d is not None:
-        return ("obj", type(x).__name__, tuple((k, snap(v, depth + 1)) for k, v in sorted(d.items()) if k not in CACHE_ATTRS))
+        return ("obj", type(x).__name__, Attrs((k, snap(v, depth + 1)) for k, v in sorted(d.items()) if k not in CACHE_ATTRS))
     return ("o", type(x).__name__, repr(x)[:80])
+
+
+class Attrs(tuple):
+    """attribute list of an object's __dict__: compared by name. A PRIVATE attribute that appears, or goes from None to a
+    value, between two snapshots is a lazily filled cache (not observable state) and is ignored; every other difference -
+    a changed or vanished attribute, a new public attribute - is a mismatch."""
+
+
+_NONE = ("v", "NoneType", "None")
+
+
+def _compare_attrs(a, b, eqs, path):
+    da, db = dict(a), dict(b)
+    for k in da:
+        if k not in db:
+            return f"{path}: attribute {k} vanished"
+    for k in db:
+        if k not in da:
+            if k.startswith("_"):
+                continue  # cache filled on demand
+            return f"{path}: new attribute {k}"
+    for k, va in da.items():
+        vb = db[k]
+        if k.startswith("_") and va == _NONE and vb != _NONE:
+            continue  # private slot initialised to None and filled on demand
+        r = compare(va, vb, eqs, f"{path}.{k}")
+        if r:
+            return r
+    return None
 
 
 def compare(a, b, eqs, path="$"):
@@ -101,6 +130,8 @@ def compare(a, b, eqs, path="$"):
             if not z3.eq(x, y):
                 eqs.append(x == y)
         return None
+    if isinstance(a, Attrs) and isinstance(b, Attrs):
+        return _compare_attrs(a, b, eqs, path)
     if type(a) is not type(b):
         return f"{path}: {str(a)[:60]} vs {str(b)[:60]}"
     if isinstance(a, tuple):
@@ -636,9 +667,13 @@ def ground_bad(name):
         r1 = call(objs)
         mid = {k: snap(v) for k, v in objs.items()}
         r2 = call(objs)
+        post = {k: snap(v) for k, v in objs.items()}
         for k in pre:
-            if pre[k] != mid[k]:
-                return f"argument {k} changed: {compare(pre[k], mid[k], [], k)}"
+            for a, b, when in ((pre[k], mid[k], "by the call"), (mid[k], post[k], "by the second call")):
+                eqs = []
+                why = compare(a, b, eqs, k)  # lazily filled private caches are not a change (see Attrs)
+                if why or eqs:
+                    return f"argument {k} changed {when}: {why or 'symbolic leaves differ'}"
         return None
 
     try:
